@@ -19,7 +19,7 @@ from vf.ref import linq
 BACKENDS = ("atlas", "cms_aod")
 RULE = (
     "cells = every function name of the README's Math list (+ builtin abs, pow) x 9 uses (standalone column, on float-typed arguments standalone and inside arithmetic, inside +*/ arithmetic, inside an inner lambda under Sum, as the argument of other functions, with a literal in each argument position, "
-    "inside a comparison + conditional, on integer-typed arguments standalone and inside arithmetic) + each name alone in a query of its own (include check), enumerated completely in every run on two back ends; arguments are computed from Hypothesis-drawn "
+    "inside a comparison + conditional, on integer-typed arguments standalone and inside arithmetic) + calls whose arguments are all number literals (drawn: quarters, ints, the ties x.5, standalone and inside arithmetic) + each name alone in a query of its own (include check), enumerated completely in every run on two back ends; arguments are computed from Hypothesis-drawn "
     "event data inside each function's domain. non-trivial = a (cell, drawn values) pair with a row on which the namesake differs from every "
     "other listed function of the same arity (so a table row mapped to a sibling is visible); distinct by (cell, values)."
 )
@@ -94,7 +94,7 @@ def build_cells(backend):
             if backend == "atlas":
                 fargs = ", ".join(a.replace("j.NINT()", int_method(backend)).replace(X, "j.emf()") for a in SPEC[name])
                 cells.append((f"{name}:float", f"{name}({fargs})", name))
-                cells.append((f"{name}:floatarith", f"(({name}({fargs}) * 2 + 1) / 4)", name))
+                cells.append((f"{name}:floatarith", f"(({name}({fargs}) * 2) / 4)", name))  # (no sum: a cancellation would magnify the single-precision rounding)
             else:
                 fargs = ", ".join(a.replace("j.NINT()", int_method(backend)).replace(X, "w") for a in SPEC[name])
                 cells.append((f"{name}:float", f"j.chi2s().Select(lambda w: {name}({fargs}))", name))
@@ -135,6 +135,8 @@ def close(a, b, tol=1e-12):
         return True
     if math.isinf(a) or math.isinf(b):
         return False
+    if tol == FLOAT_TOL and abs(a) < 1.2e-38 and abs(b) < 1.2e-38:
+        return True  # below the smallest normal single-precision number (erfc of a large float is 0)
     return abs(a - b) <= tol * max(abs(a), abs(b)) or abs(a - b) < 1e-300
 
 
@@ -180,6 +182,10 @@ def run_cells(cells, evs, backend):
         return out
     src = r.pkg.files.get("query.cxx") or r.pkg.files.get("Analyzer.cc")
     has_cmath = '#include "cmath"' in src or "#include <cmath>" in src
+    import re
+
+    if all(":alllit" in c[0] for c in cells) and not (set(re.findall(r"std::(\w+)\s*\(", src)) - {"runtime_error", "vector", "string", "make_pair", "pair"}):
+        has_cmath = True  # calls on literals only, and the emitted event code calls no std:: function at all (folded): no header is needed
     ref = linq.evaluate(q, sch, evs)
     res = []
     for i, c in enumerate(cells):
@@ -225,6 +231,38 @@ def include_alone(backend, stats: Stats):
             stats.violation("include-" + name, f"{name} used alone in a query: the package does not #include cmath", {"backend": backend, "cell": cid, "expr": text, "name": name, "events": [], "include_alone": True})
 
 
+# domains of all-literal calls: name -> one class per argument
+_LIT_DOM = {"acos": ["unit"], "asin": ["unit"], "atanh": ["open-unit"], "acosh": ["ge1"], "log": ["pos"], "ln": ["pos"], "log10": ["pos"], "log2": ["pos"],
+            "ilogb": ["pos"], "sqrt": ["nonneg"], "log1p": ["nonneg"], "tgamma": ["pos"], "lgamma": ["pos"], "pow": ["pos", "real"], "fmod": ["real", "nonzero"],
+            "remainder": ["real", "nonzero"], "ldexp": ["real", "smallint"], "scalbn": ["real", "smallint"], "scalbln": ["real", "smallint"]}
+
+
+def literal_cells_strategy():
+    """8 calls whose arguments are ALL number literals (ints, quarters, the ties x.5 of the rounding functions, negative ones), standalone
+    or inside arithmetic: a translator may treat such a call specially (fold it), and the value has to be the namesake's all the same"""
+    from hypothesis import strategies as st
+
+    quarters = st.integers(-34, 34).map(lambda k: k / 4.0)
+    ties = st.sampled_from([0.5, 1.5, 2.5, 3.5, 4.5, -0.5, -1.5, -2.5, 6.5, 1e15 + 0.5])
+    ints = st.integers(-6, 9)
+    real = st.one_of(quarters, ties, ints)
+    dom = {"real": real, "unit": st.integers(-4, 4).map(lambda k: k / 4.0), "open-unit": st.integers(-3, 3).map(lambda k: k / 4.0),
+           "ge1": st.one_of(st.integers(4, 40).map(lambda k: k / 4.0), st.integers(1, 9)), "pos": st.one_of(st.integers(1, 40).map(lambda k: k / 4.0), st.integers(1, 9)),
+           "nonneg": st.one_of(st.integers(0, 40).map(lambda k: k / 4.0), st.integers(0, 9)), "nonzero": real.filter(lambda v: v != 0), "smallint": st.integers(-3, 5)}
+    names = [n for n in README_LIST if n in SPEC and n != "nan"] + ["round", "rint", "nearbyint", "ceil", "floor", "trunc", "fmod", "remainder"] * 3
+
+    @st.composite
+    def one(draw):
+        name = draw(st.sampled_from(names))
+        classes = _LIT_DOM.get(name, ["real"] * len(SPEC[name]))
+        args = [repr(draw(dom[c])) for c in classes]
+        call = f"{name}({', '.join(args)})"
+        use = draw(st.sampled_from(["alllit", "alllit", "alllitarith"]))
+        return (f"{name}:{use}", call if use == "alllit" else f"(({call} * 2 + 1) / 4)", name)
+
+    return st.lists(one(), min_size=8, max_size=8)
+
+
 def worker(payload):
     seed, backend, chunks, deadline, n_examples = payload
     stats = Stats()
@@ -233,6 +271,19 @@ def worker(payload):
         return stats
     sch = standard_schema(backend)
     evstrat = events_strategy(sch, [collection(backend)], n_min=2, n_max=3)
+    if chunks == "all-literals":
+        from hypothesis import strategies as st
+
+        def lbody(pair):
+            cells, evs = pair
+            for c, prob, vals in run_cells(cells, evs, backend):
+                stats.case(jdump([backend, c[0], c[1]]), bool(vals), ["fn=" + c[2], "use=" + c[0].split(":")[1], "backend=" + backend],
+                           {"backend": backend, "cell": c[0], "expr": c[1], "libm_values": (vals or [])[:1]})
+                if prob:
+                    raise Violation("fn-" + c[2], f"{c[0]}: {prob}", {"backend": backend, "cell": c[0], "expr": c[1], "name": c[2], "events": [e.to_json() for e in evs]})
+
+        hyp_search(lbody, st.tuples(literal_cells_strategy(), evstrat), max_examples=n_examples, seed=seed, stats=stats, deadline=deadline, shrink=False, max_rounds=1)
+        return stats
     for ci, cells in enumerate(chunks):
 
         def body(evs, cells=cells):
@@ -268,6 +319,9 @@ def run(ctx: Ctx):
             k += 1
     for be in BACKENDS:
         payloads.append((derive_seed(ctx.seed, "C12inc", be), be, "include-alone", ctx.deadline, 0))
+    for be in BACKENDS:
+        for i in range(3):
+            payloads.append((derive_seed(ctx.seed, "C12lit", be, i), be, "all-literals", ctx.deadline, ctx.n(12, 200)))
     for st_ in run_shards("vf.props.C12", "worker", payloads):
         ctx.stats.merge(st_)
     ctx.stats.extra["names_in_readme_list"] = len(README_LIST)
